@@ -403,3 +403,160 @@ func runDroppedError(p *Program, c *Collector, de DroppedErrorSpec) {
 }
 
 var _ = token.MUL
+
+// ---------------------------------------------------------------------------------------------
+// save and restore: Enter<R> overwrites a package variable V and Exit<R> gives V a value taken from a package-level stack Q
+// that Enter<R> pushes onto. What Enter pushes must be the value V had *before* the overwrite; when it pushes the new value,
+// the stack only ever holds inner values and what V held before the outermost R is never restored (after `outer.new Inner()`
+// the current class stayed "Inner" for the rest of the file).
+func runSaveRestore(p *Program, c *Collector, a FuncRuleSpec) {
+	type pairKey struct{ recv, rule string }
+	enters, exits := map[pairKey]*ssa.Function{}, map[pairKey]*ssa.Function{}
+	for _, fn := range expandFuncs(p, c, a.Funcs, a.Props...) {
+		if fn.Signature.Recv() == nil || fn.Parent() != nil {
+			continue
+		}
+		_, rn := namedTypeName(fn.Signature.Recv().Type())
+		switch {
+		case strings.HasPrefix(fn.Name(), "Enter"):
+			enters[pairKey{rn, strings.TrimPrefix(fn.Name(), "Enter")}] = fn
+		case strings.HasPrefix(fn.Name(), "Exit"):
+			exits[pairKey{rn, strings.TrimPrefix(fn.Name(), "Exit")}] = fn
+		}
+	}
+	var keys []pairKey
+	for k := range enters {
+		if exits[k] != nil {
+			keys = append(keys, k)
+		}
+	}
+	sort.Slice(keys, func(i, j int) bool { return keys[i].recv+keys[i].rule < keys[j].recv+keys[j].rule })
+	before := func(x, y ssa.Instruction) bool {
+		if x.Block() == y.Block() {
+			for _, in := range x.Block().Instrs {
+				if in == x {
+					return true
+				}
+				if in == y {
+					return false
+				}
+			}
+		}
+		return x.Block().Dominates(y.Block())
+	}
+	n := 0
+	for _, k := range keys {
+		enter, exit := enters[k], exits[k]
+		// V: stored whole in both; in Exit from an element of a package slice Q
+		for _, b := range exit.Blocks {
+			for _, in := range b.Instrs {
+				st, ok := in.(*ssa.Store)
+				if !ok {
+					continue
+				}
+				V, whole := globalOfAddr(st.Addr)
+				if V == nil || !whole {
+					continue
+				}
+				ld, ok := st.Val.(*ssa.UnOp)
+				if !ok || ld.Op != token.MUL {
+					continue
+				}
+				ia, ok := ld.X.(*ssa.IndexAddr)
+				if !ok {
+					continue
+				}
+				Q := loadedGlobal(ia.X)
+				if Q == nil {
+					// a re-sliced stack: q = q[:len(q)-1]; v = q[len(q)-1]
+					if sl, ok := ia.X.(*ssa.Slice); ok {
+						Q = loadedGlobal(sl.X)
+					}
+				}
+				if Q == nil {
+					continue
+				}
+				// Enter: the store to V and the append to Q
+				var storeV *ssa.Store
+				var pushed []ssa.Value
+				for _, eb := range enter.Blocks {
+					for _, ein := range eb.Instrs {
+						est, ok := ein.(*ssa.Store)
+						if !ok {
+							continue
+						}
+						if g, w := globalOfAddr(est.Addr); g == V && w {
+							storeV = est
+						}
+						if g, w := globalOfAddr(est.Addr); g == Q && w {
+							if call, ok := est.Val.(*ssa.Call); ok {
+								if bi, ok := call.Call.Value.(*ssa.Builtin); ok && bi.Name() == "append" && len(call.Call.Args) == 2 {
+									pushed = append(pushed, variadicElems(call.Call.Args[1])...)
+								}
+							}
+						}
+					}
+				}
+				if storeV == nil || len(pushed) == 0 {
+					continue
+				}
+				n++
+				key := "saverestore:" + p.FuncKey(enter) + " " + V.Name() + " via " + Q.Name()
+				saved := false
+				for _, x := range pushed {
+					if l, ok := x.(*ssa.UnOp); ok && l.Op == token.MUL {
+						if g, w := globalOfAddr(l.X); g == V && w && before(l, storeV) {
+							saved = true
+						}
+					}
+				}
+				// the bottom of the stack handled by hand: Exit also gives V a constant (nil outside every class)
+				bottom := false
+				for _, xb := range exit.Blocks {
+					for _, xin := range xb.Instrs {
+						if xst, ok := xin.(*ssa.Store); ok {
+							if g, w := globalOfAddr(xst.Addr); g == V && w {
+								if _, isConst := xst.Val.(*ssa.Const); isConst {
+									bottom = true
+								}
+							}
+						}
+					}
+				}
+				if saved {
+					c.Ob(a.Props, "E7.save-restore", key, Discharged, enter.Name()+" pushes what "+V.Name()+" held before it overwrites it", p.InstrPos(storeV), true)
+				} else if bottom {
+					c.Ob(a.Props, "E7.save-restore", key, Discharged, exit.Name()+" gives "+V.Name()+" its outermost value explicitly when the stack runs empty", p.InstrPos(storeV), true)
+				} else {
+					c.Ob(a.Props, "E7.save-restore", key, Violated, a.What+": "+enter.Name()+" overwrites "+V.Name()+" and pushes the new value onto "+Q.Name()+"; "+exit.Name()+" restores "+V.Name()+" from that stack, which never holds what "+V.Name()+" was before the outermost "+k.rule+": after it, "+V.Name()+" keeps the inner value for the rest of the file", p.InstrPos(storeV), false)
+				}
+			}
+		}
+	}
+	if n == 0 {
+		c.Ob(a.Props, "E7.save-restore", "saverestore:"+strings.Join(a.Funcs, ","), Discharged, a.What+": no callback pair restores a package variable from a stack", "", true)
+	}
+}
+
+// variadicElems: the element values of the implicit slice of a variadic call (new [n]T; stores to its elements; slice).
+func variadicElems(v ssa.Value) []ssa.Value {
+	sl, ok := v.(*ssa.Slice)
+	if !ok {
+		return nil
+	}
+	al, ok := sl.X.(*ssa.Alloc)
+	if !ok || al.Referrers() == nil {
+		return nil
+	}
+	var out []ssa.Value
+	for _, r := range *al.Referrers() {
+		if ia, ok := r.(*ssa.IndexAddr); ok && ia.Referrers() != nil {
+			for _, r2 := range *ia.Referrers() {
+				if st, ok := r2.(*ssa.Store); ok && st.Addr == ssa.Value(ia) {
+					out = append(out, st.Val)
+				}
+			}
+		}
+	}
+	return out
+}
